@@ -18,7 +18,7 @@ CLAUSE = ('every iteration over a randomly-seeded hash container reachable from 
           'consumed order-insensitively or is in the reviewed table; all file mutation is confined to persist_if_changed (open-for-write '
           'only on the has-changed branch); every write of the generator goes through AppWriter, whose check arm reaches no writer and uses '
           'the same change predicate; the third-party doc cache filters its SELECT on exactly the columns of its primary key / INSERT; '
-          'rayon pipelines end in order-preserving collects.')
+          'rayon pipelines end in order-preserving collects. Hash-order audit of the documentation layer with a reviewed table; Crate::get_item_id_by_path leaves the loop over the re-exports early only with the item found.')
 TRUSTED = ['BTreeMap/BTreeSet/sorted iteration is deterministic; FxHash has a fixed seed', 'rayon indexed collect preserves order', 'SQLite compares the bound key columns exactly']
 
 ROOTS = {PX + 'app::App::build', PX + 'app::App::codegen', PX + 'app::App::diagnostic_representation',
